@@ -43,6 +43,7 @@ def _check_own(ctx):
     check_large_pop(ctx, prog, R, eff)
     tables.check_tables(ctx, prog, R)
     tables.check_class_slot(ctx, prog, R)
+    tables.check_large_threshold(ctx, prog, R)
     from . import cursor
     from .roles import M_PIECE, M_VFILE
     n_ops = cursor.check_cursor(ctx, prog, R, {M_PIECE, M_VFILE}, rule="free-slot-field-position")
